@@ -62,7 +62,7 @@ func (c *sortSliceChecker) VisitExpr(expr ast.Expr) {
 		return
 	}
 	ret, ok := lessFunc.Body.List[0].(*ast.ReturnStmt)
-	if !ok {
+	if !ok || len(ret.Results) == 0 {
 		return
 	}
 	cmp := astcast.ToBinaryExpr(astutil.Unparen(ret.Results[0]))
